@@ -2137,6 +2137,21 @@ def g_as_tensor(rng, tier):
     yield C('attr', 'epsilon', [Sub('ext', 'torch.finfo', [DT(F64)])])
 
 
+@gen('numpy.prod')
+@finite
+def g_np_prod(rng, tier):
+    # np.prod of python lists (mode sizes / rank lists); of a list of equally long tuples (the shape of a TT matrix); a numpy integer
+    # as divisor never raises (inf / nan with a warning)
+    yield C('ext', 'numpy.prod', [[2, 3, 4]])
+    yield C('ext', 'numpy.prod', [[]])
+    yield C('ext', 'numpy.prod', [[(2, 3), (4, 5)]])
+    yield C('ext', 'numpy.prod', [[(2, 3)]])
+    yield C('ext', 'numpy.prod', [[2, (3, 4)]])
+    yield C('binop', 'Div', [1.5, Sub('ext', 'numpy.prod', [[1, 2, 2]])])
+    yield C('binop', 'Div', [1.5, Sub('ext', 'numpy.prod', [[1, 0, 2]])])
+    yield C('binop', 'Div', [3, Sub('ext', 'numpy.prod', [[1, 0, 2]])])
+
+
 @gen('index.True/setitem.Ellipsis')
 @finite
 def g_true_index(rng, tier):
